@@ -78,6 +78,14 @@ def run(tier):
         lints.bound_before_use_rule(chk, 'C19.order', prog, cfgname, floor=5)
         lints.scratch_extent_rule(chk, 'C19.scratch', prog, cfgname, floor=40)
         lints.outparam_on_status_rule(chk, 'C19.lent', prog, cfgname, floor=24)
+        from ..rules import factor_tail as _ft
+        chk.clause('C19.tail', 'the reuse branch of ?gstrf re-attaches every growable array to L and U (an array that moved is otherwise read after free and freed twice)')
+        for _p in 'sdcz':
+            _ft.run(chk, 'C19.tail', prog, _p, cfgname)
+        from ..rules import expand as _expand
+        chk.clause('C19.relaxcap', 'the capacity demand in front of a relaxed supernode covers every column the unchecked storing loop writes')
+        for _p in 'sdcz':
+            _expand.relaxed_capacity_rule(chk, 'C19.relaxcap', prog, _p, cfgname)
         r11_kinds.run(chk, 'C19.kinds', prog, cfgname, floor=1900)
         if cfgname == 'tested':
             r9_sibling.run(chk, prog, 'R9', None, cfgname)
